@@ -355,6 +355,11 @@ func (w *Wallet) SetChainSynced(synced bool) {
 	w.chainClientSyncMtx.Unlock()
 }
 
+// recentSpendWatchDepth is the number of blocks below the wallet's synced-to
+// block in which the outputs spent by confirmed transactions are still handed
+// to the chain backend to be watched.
+const recentSpendWatchDepth = 144
+
 // activeData returns the currently-active receiving addresses and all unspent
 // outputs.  This is primarely intended to provide the parameters for a
 // rescan request.
@@ -383,6 +388,51 @@ func (w *Wallet) activeData(dbtx walletdb.ReadWriteTx) ([]btcutil.Address, []wtx
 	}
 
 	unspent, err := w.TxStore.OutputsToWatch(txmgrNs)
+	if err != nil {
+		return nil, nil, err
+	}
+
+	// The outputs spent by recently confirmed transactions are watched as
+	// well. If a reorganization unconfirms such a spender, its next
+	// confirmation can only be recognized by the outpoints it spends when
+	// it pays nothing back to the wallet. Without them the spender would
+	// stay unconfirmed, be reported as already confirmed when it is
+	// rebroadcast, get removed, and its inputs would be offered again.
+	syncedTo := w.Manager.SyncedTo()
+	from := syncedTo.Height - recentSpendWatchDepth
+	if from < 0 {
+		from = 0
+	}
+	err = w.TxStore.RangeTransactions(
+		txmgrNs, from, syncedTo.Height,
+		func(details []wtxmgr.TxDetails) (bool, error) {
+			for i := range details {
+				detail := &details[i]
+				if len(detail.Debits) == 0 {
+					continue
+				}
+				pkScripts, err := w.TxStore.PreviousPkScripts(
+					txmgrNs, &detail.TxRecord,
+					&detail.Block.Block,
+				)
+				if err != nil {
+					return false, err
+				}
+				for j, debit := range detail.Debits {
+					if j >= len(pkScripts) {
+						break
+					}
+					txIn := detail.MsgTx.TxIn[debit.Index]
+					unspent = append(unspent, wtxmgr.Credit{
+						OutPoint: txIn.PreviousOutPoint,
+						Amount:   debit.Amount,
+						PkScript: pkScripts[j],
+					})
+				}
+			}
+			return false, nil
+		},
+	)
 	return addrs, unspent, err
 }
 
